@@ -35,6 +35,21 @@ _ASCII_LETTERS = set(string.ascii_letters)
 _ASCII_LETTERS_DIGITS_AND_UNDERSCORE = set(string.ascii_letters + string.digits + "_")
 
 
+def _length_range(length_text):
+    """
+    Range for the length of a field described by ``length_text``.
+
+    :raises cutplace.errors.InterfaceError: if a limit is bigger than any text can be
+    """
+    result = ranges.Range(length_text)
+    if result.items is not None:
+        for item in result.items:
+            for limit in item:
+                if (limit is not None) and (limit > sys.maxsize):
+                    raise errors.InterfaceError("length must be at most %d but is: %s" % (sys.maxsize, length_text))
+    return result
+
+
 class AbstractFieldFormat(object):
     """
     Abstract format description of a field in a data file, acting base for all
@@ -59,7 +74,7 @@ class AbstractFieldFormat(object):
 
         self._field_name = field_name
         self._is_allowed_to_be_empty = is_allowed_to_be_empty
-        self._length = ranges.Range(length_text)
+        self._length = _length_range(length_text)
         self._rule = rule
         self._data_format = data_format
         self._empty_value = empty_value
@@ -385,7 +400,7 @@ class DecimalFieldFormat(AbstractFieldFormat):
         self.decimal_separator = data_format.decimal_separator
         self.thousands_separator = data_format.thousands_separator
         self.valid_range = ranges.DecimalRange(rule, ranges.DEFAULT_DECIMAL_RANGE_TEXT)
-        self._length = ranges.Range(length_text)
+        self._length = _length_range(length_text)
 
         self._precision = self.valid_range.precision
         self._scale = self.valid_range.scale
